@@ -167,6 +167,15 @@ pub fn check_list_incremental(prefix: &str, items: &[(&str, bool)], reqs: &[Req]
     };
     let store = if resources { ns::std_res_spec() } else { vec![] };
     let tags_present = alpha::tags_in(&std_rules);
+    // with `optimize`, a second pass after an explicit `Blocker::optimize()` on the live blocker
+    // (the route "optimised later")
+    for pass in 0..(1 + optimize as usize) {
+    if pass == 1 {
+        if let Err(loc) = crate::util::catch(std::panic::AssertUnwindSafe(|| subj.b.optimize())) {
+            l.mismatch(Mismatch { sig: format!("{}.rules-added-one-by-one.optimize-panic@{}", prefix, loc), what: format!("optimize() on a blocker holding {:?}+{:?} panics", std_rules, hosts), case: case_of(&[], reqs.first()), size: items.len() as u64 });
+            return;
+        }
+    }
     for tagset in subsets_of(&tags_present) {
         let tagrefs: Vec<&str> = tagset.iter().map(|s| s.as_str()).collect();
         subj.b.use_tags(&tagrefs);
@@ -185,16 +194,17 @@ pub fn check_list_incremental(prefix: &str, items: &[(&str, bool)], reqs: &[Req]
             }
             if let Some(field) = d {
                 l.mismatch(Mismatch {
-                    sig: format!("{}.rules-added-one-by-one", classify(prefix, &field, &spec, &rules, rq)),
+                    sig: format!("{}.rules-added-one-by-one{}", classify(prefix, &field, &spec, &rules, rq), if pass == 1 { ".then-optimize()" } else { "" }),
                     what: format!(
-                        "rules {:?}+{:?} added with Blocker::add_filter, tags {:?}, request ({}, {}, {}): matching rules {:?}; reference {:?}; blocker {:?}",
-                        std_rules, hosts, tagset, rq.url, rq.source, rq.ty, spec.matching, spec.verdict, got
+                        "rules {:?}+{:?} added with Blocker::add_filter{}, tags {:?}, request ({}, {}, {}): matching rules {:?}; reference {:?}; blocker {:?}",
+                        std_rules, hosts, if pass == 1 { ", then optimize()" } else { "" }, tagset, rq.url, rq.source, rq.ty, spec.matching, spec.verdict, got
                     ),
                     case: case_of(&tagset, Some(rq)),
-                    size: (items.len() * 10000 + tagset.len() * 1000 + rq.url.len() * 4 + rq.source.len()) as u64,
+                    size: (items.len() * 10000 + tagset.len() * 1000 + rq.url.len() * 4 + rq.source.len() + pass) as u64,
                 });
             }
         }
+    }
     }
 }
 
